@@ -50,6 +50,8 @@ class Submodule(Module):
     def resolve_inherit(self, obj_tree, inherit_version):
         if not self.ancestor_name:
             return
+        # The parent may have been renamed or deleted since the last resolution
+        self.ancestor_obj = None
         if self.ancestor_name in obj_tree:
             ancestor_obj = obj_tree[self.ancestor_name][0]
             # A submodule cannot be its own ancestor (directly or through its
